@@ -574,6 +574,9 @@ pub fn run_check(prop: &str, opts: &Opts) -> i32 {
                 missing.push(*p);
             }
         }
+        if prop == "C02" && corpus.table_probe().len() < 30 {
+            missing.push("table_probe_records_found_by_root_finding");
+        }
     }
 
     let wall = t0.elapsed().as_secs_f64();
@@ -594,6 +597,10 @@ pub fn run_check(prop: &str, opts: &Opts) -> i32 {
     cov.components_stub = vec![
         "byte sink (SimSink), byte source (SimSource), formatter sink (SimFmtSink), medium, RNG (SimRng): simulated".into(),
     ];
+    if prop == "C02" {
+        cov.extra.insert("table_probe_records".into(), json!(corpus.table_probe().len()));
+        cov.extra.insert("table_probe_note".into(), json!("encodings with a chosen discriminant: the ratio whose square root decoding takes is zeta^e * (odd-order element) for 40 exponent patterns e (all ones, single table windows, window boundaries, carries of the rounding halving); found by solving the quartic in u_1 over Fq (simcore::poly)"));
+    }
     cov.extra.insert("enumeration_cases".into(), json!(n_enum));
     cov.extra.insert("enumeration_complete".into(), json!(enum_done));
     cov.extra.insert("enumeration_wall_s".into(), json!(t_enum));
